@@ -14,6 +14,7 @@ net/http's serialisation, URL escaping, TLS and connection pooling are library b
 -/
 import Pandora.Proofs.C09
 import Pandora.Proofs.C09Conn
+import Pandora.Proofs.C09Volley
 import Pandora.Bridge.HttpWire
 
 namespace Pandora.Props.C09
@@ -748,6 +749,129 @@ theorem C09_features_keep_body (ft : Feat) (body : Str) :
   simp only [bodyAtDo]
   cases ft.answLog <;> cases ft.dump <;> simp [hg, hd, BodyRd.fresh]
 
+/-! ### round 4: the shared-client switch, paced shooting under all timeouts, instances that shoot in volleys -/
+
+/-- **`shared-client.enabled` decides alone.** With `enabled: false` there is no pool whatever `client-number` says (also the
+`client-number: 1` that the full config of docs/eng/http-generator.md prints): every instance keeps the client of its own;
+with `enabled: true` the pool has `client-number` clients, one when the number is below one. (`sharedPool` IS
+prepareClientPool: `Bridge.HttpWire.sharedPool_eq`.) -/
+theorem C09_shared_switch_decides (n : Int) :
+    sharedPool false n = none ∧ (∀ g, transportOfGun (sharedPool false n) g = g) ∧
+    sharedPool true n = some (max n 1) := by
+  refine ⟨rfl, fun _ => rfl, ?_⟩
+  simp only [sharedPool, Bool.not_true, Bool.false_eq_true, if_false]
+  split <;> congr 1 <;> omega
+
+/-- hence the keep-alive clause for a gun section that carries `shared-client {enabled: false, client-number: n}`: `inst`
+instances, any interleaving, nobody asking to close, pauses below the idle timeout, answers in time: at most `inst` connections -/
+theorem C09_disabled_shared_client_connections (n : Int) (t : Transport) (inst : Nat) (fs : List TFlight)
+    (hk : keeps t = true) (hg : ∀ f ∈ fs, f.gun < inst) (hc : ∀ f ∈ fs, f.close = false)
+    (hq : ∀ f ∈ fs, idleExpired t f.pause = false ∧ responseLost t f.delay = false) :
+    tconnRun t inst (fs.map fun f => { f with gun := transportOfGun (sharedPool false n) f.gun }) ≤ inst := by
+  have : (fs.map fun f => ({ f with gun := transportOfGun (sharedPool false n) f.gun } : TFlight)) = fs := by
+    simp [sharedPool, transportOfGun]
+  rw [this]
+  exact C09_connections_timed_keepalive t inst fs hk hg hc hq
+
+/-- **`response-header-timeout` has a say against late answers only.** Two gun sections that agree on `disable-keep-alives`,
+the idle limits and `idle-conn-timeout` and differ in `response-header-timeout` (and anything else) in any way: as long as
+the target answers before either timeout — a target that answers at once does, whatever the value — the connections are the
+same for EVERY sequence of pauses. The connection count of paced shooting does not depend on `response-header-timeout`. -/
+theorem C09_response_header_timeout_only_against_late_answers (c c' : TransportCfg) (inst : Nat) (fs : List TFlight)
+    (h1 : c.disableKeepAlives = c'.disableKeepAlives) (h2 : c.maxIdleConns = c'.maxIdleConns)
+    (h3 : c.maxIdleConnsPerHost = c'.maxIdleConnsPerHost) (h4 : c.idleConnTimeout = c'.idleConnTimeout)
+    (hd : ∀ f ∈ fs, responseLost (newTransport c) f.delay = false ∧ responseLost (newTransport c') f.delay = false) :
+    tconnRun (newTransport c) inst fs = tconnRun (newTransport c') inst fs := by
+  have hk : keeps (newTransport c) = keeps (newTransport c') := by
+    simp only [keeps, newTransport, h1, h2, h3]; rfl
+  have he : ∀ p, idleExpired (newTransport c) p = idleExpired (newTransport c') p := by
+    intro p; simp only [idleExpired, newTransport, h4]; rfl
+  simp only [tconnRun]
+  rw [tconnRunFrom_congr (newTransport c) (newTransport c') fs]
+  intro f hf st
+  obtain ⟨a, b⟩ := hd f hf
+  simp only [tconnStep, a, b, hk, he]
+
+/-- an answer that comes at once is never lost, whatever the response-header timeout -/
+theorem responseLost_zero (t : Transport) : responseLost t 0 = false := by
+  simp only [responseLost, Bool.and_eq_false_iff, decide_eq_false_iff_not]
+  by_cases h : 0 < t.responseHeaderTimeout
+  · right; simp only [Int.natCast_zero]; omega
+  · left; exact h
+
+/-- NewTransport with the two adjacent duration options crossed (the wrong-operand slip): the statement above is false for it -/
+def newTransportCrossed (c : TransportCfg) : Transport :=
+  { newTransport c with idleConnTimeout := c.responseHeaderTimeout, responseHeaderTimeout := c.idleConnTimeout }
+
+theorem C09_crossed_timeouts_counterexample :
+    ¬ (∀ (c c' : TransportCfg) (inst : Nat) (fs : List TFlight),
+        c.disableKeepAlives = c'.disableKeepAlives → c.maxIdleConns = c'.maxIdleConns →
+        c.maxIdleConnsPerHost = c'.maxIdleConnsPerHost → c.idleConnTimeout = c'.idleConnTimeout →
+        (∀ f ∈ fs, f.delay = 0) →
+        tconnRun (newTransportCrossed c) inst fs = tconnRun (newTransportCrossed c') inst fs) := by
+  intro h
+  have := h { defaultTransportCfg with responseHeaderTimeout := 60000000 } defaultTransportCfg 1
+    [⟨0, true, false, 0, 0⟩, ⟨0, true, false, 200000000, 0⟩] rfl rfl rfl rfl (by decide)
+  revert this
+  decide
+
+/-- **A client of its own never sees more than one request at a time**: the volley pool (a transport that serves several
+requests at once and keeps at most `idleLimit` idle connections) is, for the volleys of one instance, the one-connection pool
+of the theorems above. -/
+theorem C09_volley_pool_refines_per_instance (t : Transport) (fs : List TFlight) (hg : ∀ f ∈ fs, f.gun = 0) :
+    vpoolRun t (fs.map TFlight.volley) = tconnRun t 1 fs := by
+  have := vpoolRunFrom_single t fs hg false 0
+  simp only [b2n, Bool.false_eq_true, if_false] at this
+  simp only [vpoolRun, tconnRun, this]
+  rfl
+
+/-- **Room for everybody.** A transport that `m` instances share and that may keep `m` idle connections for the target (or
+more), nobody asking to close, pauses below the idle timeout, answers in time: at most `m` connections however the instances'
+requests overlap. For per-instance clients `m = 1` and every transport that keeps connections at all has that room
+(`keeps_idleLimit_pos`), whatever `max-idle-conns-per-host` ≥ 1 says. -/
+theorem C09_volleys_with_room (t : Transport) (m : Nat) (hk : keeps t = true) (hL : m ≤ idleLimit t) (vs : List Volley)
+    (hv : ∀ v ∈ vs, v.k ≤ m ∧ v.closing = 0 ∧ idleExpired t v.pause = false ∧ responseLost t v.delay = false) :
+    vpoolRun t vs ≤ m :=
+  (vpoolRunFrom_room t m hk hL vs hv (0, 0) ⟨rfl, Nat.zero_le _⟩).2
+
+theorem C09_volleys_per_instance (t : Transport) (hk : keeps t = true) (vs : List Volley)
+    (hv : ∀ v ∈ vs, v.k ≤ 1 ∧ v.closing = 0 ∧ idleExpired t v.pause = false ∧ responseLost t v.delay = false) :
+    vpoolRun t vs ≤ 1 :=
+  C09_volleys_with_room t 1 hk (keeps_idleLimit_pos t hk) vs hv
+
+/-- the bound of the keep-alive clause stated for a SHARED transport: `m` instances on one transport, at most `m` connections -/
+def C09_shared_volley_bound_statement : Prop :=
+  ∀ (t : Transport) (m : Nat) (vs : List Volley), keeps t = true →
+    (∀ v ∈ vs, v.k ≤ m ∧ v.closing = 0 ∧ idleExpired t v.pause = false ∧ responseLost t v.delay = false) →
+    vpoolRun t vs ≤ m
+
+/-- **Why the clause says "per-instance clients".** `n + 1` volleys of `m` requests over ONE transport whose pool keeps
+`L < m` connections for the target (pandora's defaults: L = 2): the first volley dials `m`, every further one the surplus
+`m − L` again — `m + n·(m − L)` connections. This is what three and more instances see once a change puts them on one
+transport (`shared-client {enabled: false, client-number: 1}` read as a pool). -/
+theorem C09_shared_volley_surplus (t : Transport) (m p d n : Nat) (hk : keeps t = true) (hm : idleLimit t ≤ m) (hpos : 0 < m)
+    (he : idleExpired t p = false) (hl : responseLost t d = false) :
+    vpoolRun t (List.replicate (n + 1) { k := m, closing := 0, pause := p, delay := d }) = m + n * (m - idleLimit t) := by
+  simp only [vpoolRun, List.replicate_succ, vpoolRunFrom_cons, vpoolStep_first t m p d hk hpos hl, Nat.min_eq_left hm,
+    vpoolRunFrom_replicate t m p d hk hm hpos he hl n m]
+
+theorem C09_shared_volley_bound_counterexample : ¬ C09_shared_volley_bound_statement := by
+  intro h
+  have := h (newTransport defaultTransportCfg) 3 (List.replicate 2 { k := 3, closing := 0, pause := 60000000, delay := 120000000 })
+    (by decide) (by decide)
+  revert this
+  decide
+
+/-- **A `[k: v]` line means header `k` with value `v`.** For every name without a colon (not blank) and EVERY value — colons,
+brackets, blanks inside — the line `[k:v]` of a uri / uripost file (and the string `[k: v]` of the `headers` option) is decoded
+into exactly (k, v) with the blanks around each of them removed; and the code as it stands now (regenerated DecodeHeader) returns
+that, without a run-time panic. -/
+theorem C09_header_line_means_header (k v : Str) (hc : 58 ∉ k) (hk : trim k ≠ []) :
+    decodeHeader (headerLine (k, v)) = .ok (trim k, trim v) ∧
+    Gen.HttpWire.decodeHeader (headerLine (k, v)) = some (.ok (trim k, trim v)) := by
+  have h := decodeHeader_headerLine k v hc hk
+  exact ⟨h, by rw [Bridge.HttpWire.decodeHeader_eq, h]⟩
+
 /-! ### the model is what the source says now -/
 
 /-- **The regenerated code is the model.** `Pandora.Gen.HttpWire` is re-extracted from /repo's current source on every
@@ -760,7 +884,10 @@ check (translator `/verif/gen -area httpwire`); the functions the theorems above
 * the http2 constructor's ssl check is the one of `constructible`;
 * `newTransport`, `defaultTransportCfg`, `transportTags` are the regenerated NewTransport literal, DefaultTransportConfig
   and `config:` tags of TransportConfig (round 2);
-* `getBody` is the regenerated GetBody of the answer log (round 3).
+* `getBody` is the regenerated GetBody of the answer log (round 3);
+* `sharedPool` is the regenerated prepareClientPool: which `shared-client` sections get a pool, and of what size (round 4);
+* `decodeHeader` is the regenerated util.DecodeHeader (the `[key: value]` lines of the option and of uri / uripost files), which
+  moreover never panics on any string (round 4).
 (The shape facts — where Setup / NewRequest arguments, the per-gun client, the keep-alive option and the factories'
 Target/TargetResolved come from — are pinned in `Pandora.Bridge.HttpWire` and compiled with this module.) -/
 theorem C09_regenerated_code_is_model :
@@ -785,13 +912,16 @@ theorem C09_regenerated_code_is_model :
     (∀ c, Gen.HttpWire.newTransport c = newTransport c) ∧
     Gen.HttpWire.defaultTransportCfg = defaultTransportCfg ∧
     Gen.HttpWire.transportTags = transportTags ∧
-    (∀ b, Gen.HttpWire.getBody b = getBody b) :=
+    (∀ b, Gen.HttpWire.getBody b = getBody b) ∧
+    (∀ enabled n, Gen.HttpWire.sharedPool enabled n = sharedPool enabled n) ∧
+    (∀ h, Gen.HttpWire.decodeHeader h = some (decodeHeader h)) :=
   ⟨Bridge.HttpWire.enrich_cons, Bridge.HttpWire.shootRewrite_eq, Bridge.HttpWire.getHostWithoutPort_eq,
    fun d i l t => by rw [Bridge.HttpWire.preResolve_eq], Bridge.HttpWire.mergeUri_eq,
    Bridge.HttpWire.uripostMergeStep_eq, Bridge.HttpWire.mergeJson_eq, fun _ _ _ => rfl,
    Bridge.HttpWire.decodeRequestClose_eq, Bridge.HttpWire.http2NeedsSSL_eq, rfl,
    Bridge.HttpWire.newTransport_eq, Bridge.HttpWire.defaultTransportCfg_eq, Bridge.HttpWire.transportTags_eq,
-   Bridge.HttpWire.getBody_eq⟩
+   Bridge.HttpWire.getBody_eq, Bridge.HttpWire.sharedPool_eq,
+   Bridge.HttpWire.decodeHeader_eq⟩
 
 /-! ### the unrepaired tree -/
 
@@ -945,5 +1075,43 @@ example : decoyHits true true 3 = 3 ∧ decoyHits true false 3 = 0 := by decide
 
 example : (getBody (BodyRd.fresh [98, 99])).1 = some [98, 99] ∧ (getBody (BodyRd.fresh [])).1 = none ∧
     (bodyAtDo { answLog := true, dump := true } (BodyRd.fresh [98, 99])).rest = [98, 99] := by decide
+
+-- round 4. `enabled: false` with the documented `client-number: 1`: no pool; `enabled: true` with 0: one client
+example : sharedPool false 1 = none ∧ sharedPool true 0 = some 1 ∧ sharedPool true 3 = some 3 ∧
+    transportOfGun (sharedPool true 1) 4 = 0 ∧ transportOfGun (sharedPool false 1) 4 = 4 := by decide
+
+-- paced shooting: response-header-timeout 60 ms vs none, pauses of 200 ms, answers at once — hypotheses met, one connection both ways;
+-- the crossed wiring dials again (the counterexample above)
+example :
+    (∀ f ∈ ([⟨0, true, false, 0, 0⟩, ⟨0, true, false, 200000000, 0⟩] : List TFlight),
+      responseLost (newTransport { defaultTransportCfg with responseHeaderTimeout := 60000000 }) f.delay = false ∧
+      responseLost (newTransport defaultTransportCfg) f.delay = false) ∧
+    tconnRun (newTransport { defaultTransportCfg with responseHeaderTimeout := 60000000 }) 1
+      [⟨0, true, false, 0, 0⟩, ⟨0, true, false, 200000000, 0⟩] = 1 ∧
+    tconnRun (newTransportCrossed { defaultTransportCfg with responseHeaderTimeout := 60000000 }) 1
+      [⟨0, true, false, 0, 0⟩, ⟨0, true, false, 200000000, 0⟩] = 2 := by decide
+
+-- volleys: pandora's default transport keeps two idle connections per host; one with `max-idle-conns-per-host: 1`
+example : idleLimit (newTransport defaultTransportCfg) = 2 ∧
+    idleLimit (newTransport { defaultTransportCfg with maxIdleConnsPerHost := 1 }) = 1 ∧
+    keeps (newTransport { defaultTransportCfg with maxIdleConnsPerHost := 1 }) = true := by decide
+
+-- three volleys of an instance's own client: one connection; three volleys of three instances on one default transport: 3 + 1 + 1
+example :
+    vpoolRun (newTransport defaultTransportCfg) (List.replicate 3 { k := 1, closing := 0, pause := 60000000, delay := 120000000 }) = 1 ∧
+    vpoolRun (newTransport defaultTransportCfg) (List.replicate 3 { k := 3, closing := 0, pause := 60000000, delay := 120000000 }) = 5 ∧
+    volleyFloor (List.replicate 3 { k := 3, closing := 0, pause := 60000000, delay := 120000000 }) = 3 := by decide
+
+-- two instances on one default transport have room (m = 2 ≤ idleLimit)
+example : vpoolRun (newTransport defaultTransportCfg)
+    (List.replicate 4 { k := 2, closing := 0, pause := 60000000, delay := 120000000 }) = 2 := by decide
+
+-- a flight as a volley of one
+example : (⟨0, true, true, 5, 7⟩ : TFlight).volley = { k := 1, closing := 1, pause := 5, delay := 7 } := by decide
+
+-- `[X-A: with:colon x]y ]`: hypotheses met; the value keeps its colon, bracket and inner blanks. A colon in the NAME cuts there.
+example : (58 ∉ ([88, 45, 65] : Str)) ∧ trim ([88, 45, 65] : Str) ≠ [] ∧
+    (decodeHeader (headerLine ([88, 45, 65], [32, 119, 58, 99, 32, 32, 120, 93, 121, 32]))).toOption = some ([88, 45, 65], [119, 58, 99, 32, 32, 120, 93, 121]) ∧
+    (decodeHeader (headerLine ([88, 58, 65], [118]))).toOption = some ([88], [65, 58, 118]) := by decide
 
 end Pandora.Props.C09
